@@ -109,6 +109,7 @@ type endpoint struct {
 	// noReturn / noReturnConn: consumed stream / connection credit is never handed back, not
 	// even in the final greedy phase
 	noReturn, noReturnConn bool
+	shrinkSent             bool // a SETTINGS frame lowering MAX_FRAME_SIZE has been sent
 	r                      *lib.RNG
 	// continuation assembly
 	contStream  uint32
@@ -438,6 +439,14 @@ func (e *endpoint) grantLoop(stop chan struct{}) {
 			if tick%60 == 0 {
 				for id, d := range e.debtStream {
 					give(id, d)
+				}
+			}
+		case "hold-then-lumps":
+			// nothing until the lowered MAX_FRAME_SIZE has been acknowledged, then lumps
+			if e.shrinkSent && e.framePending < 0 && tick%15 == 0 {
+				give(0, min64(e.debtConn, 30000))
+				for id, d := range e.debtStream {
+					give(id, min64(d, 30000))
 				}
 			}
 		case "stream-first":
